@@ -45,7 +45,7 @@ FLOORS = {'*': {
     'request:accepted': 100, 'request:rejected': 1000, 'response:accepted': 100, 'response:rejected': 1000,
     'error:accepted': 50, 'error:rejected': 500, 'batch-request:accepted': 20, 'batch-request:rejected': 50,
     'batch-response:accepted': 20, 'batch-response:rejected': 50, 'batch:identity-error': 10,
-    'history:failed-op': 200, 'error:registered-code': 7, 'history:ops': 2000, 'nonobject': 20, 'ambient:batch-invariant': 1000,
+    'history:failed-op': 200, 'error:registered-code': 7, 'deep-payloads': 50, 'history:ops': 2000, 'nonobject': 20, 'ambient:batch-invariant': 1000,
 }}
 
 A = '__absent__'
@@ -219,6 +219,45 @@ def run_response_block(ctx, jsonrpc_i):
         status, out = call(v20.Response.from_json, obj)
         judge(ctx, 'response', obj, response_invalid(obj), status, out)
     ctx.exhaustive['response-product-16^3x22'] = True
+
+
+def _deep(depth, leaf=1, as_object=False):
+    v = leaf
+    for _ in range(depth):
+        v = {'k': v} if as_object else [v]
+    return v
+
+
+def run_deep(ctx, depth, as_object):
+    """payload members (params, result, error data) nested as deeply as a JSON decoder lets through: they are opaque to
+    deserialisation, which stays total"""
+    payload = _deep(depth, as_object=as_object)
+    cases = [
+        ('request', v20.Request.from_json, {'jsonrpc': '2.0', 'id': 1, 'method': 'm', 'params': [payload]}),
+        ('response', v20.Response.from_json, {'jsonrpc': '2.0', 'id': 1, 'result': payload}),
+        ('response', v20.Response.from_json, {'jsonrpc': '2.0', 'id': 1, 'error': {'code': 5, 'message': 'm', 'data': payload}}),
+        ('error', JsonRpcError.from_json, {'code': -32000, 'message': 'Server error', 'data': payload}),
+        ('batch-response', v20.BatchResponse.from_json, [{'jsonrpc': '2.0', 'id': 1, 'error': {'code': 5, 'message': 'm', 'data': payload}}]),
+        ('batch-response', v20.BatchResponse.from_json, {'jsonrpc': '2.0', 'id': None, 'error': {'code': 5, 'message': 'm', 'data': payload}}),
+        ('batch-request', v20.BatchRequest.from_json, [{'jsonrpc': '2.0', 'id': 1, 'method': 'm', 'params': {'p': payload}}]),
+        # invalid messages with a deep payload are rejected like shallow ones
+        ('error', JsonRpcError.from_json, {'code': 'x', 'message': 'm', 'data': payload}),
+        ('response', v20.Response.from_json, {'jsonrpc': '2.0', 'id': 1, 'result': payload, 'error': {'code': 5, 'message': 'm', 'data': payload}}),
+    ]
+    for n, (kind, fn, obj) in enumerate(cases):
+        status, out = call(fn, obj)
+        invalid = n >= 7
+        cls = ('deep', kind, n, depth, as_object)
+        ctx.hit('deep-payloads')
+        wit = dict(message_kind=kind, case=n, payload_depth=depth, payload='nested ' + ('objects' if as_object else 'arrays'))
+        if status == 'other':
+            ctx.violation(f'{kind}.from_json-raises:{type(out).__name__}:deeply-nested-payload', kind, cls, exception=repr(out)[:200], **wit)
+        elif status == 'ret' and invalid:
+            ctx.violation(f'{kind}-accepted-invalid:deeply-nested-payload', kind, cls, **wit)
+        elif status != 'ret' and not invalid:
+            ctx.violation(f'{kind}-valid-message-with-deep-payload-rejected:{type(out).__name__}', kind, cls, **wit)
+        else:
+            ctx.ok(f'{kind}:deep', cls, sample=wit)
 
 
 NONOBJECTS = [None, True, False, 0, 1, 1.5, '', 'x', [], [1], [{}], [[]], 'null', 10 ** 30]
@@ -409,6 +448,9 @@ def gen(ctx):
     for k in range(len(REGISTERED_CODES)):
         yield 'error_block', {'code_i': len(ALPHA) + k}
     yield 'nonobjects', {}
+    for depth in (100, 400, 700, 900):
+        for as_object in (False, True):
+            yield 'deep', {'depth': depth, 'as_object': as_object}
     yield 'batch_level', {}
     n_req, n_resp = len(REQ_ELEMS), len(RESP_ELEMS)
     for which, n in (('request', n_req), ('response', n_resp)):
@@ -427,6 +469,6 @@ def gen(ctx):
 
 
 KINDS = {
-    'request_block': run_request_block, 'error_block': run_error_block, 'response_block': run_response_block,
+    'deep': run_deep, 'request_block': run_request_block, 'error_block': run_error_block, 'response_block': run_response_block,
     'nonobjects': run_nonobjects, 'batch_level': run_batch_level, 'batch': run_batch, 'history': run_history,
 }
